@@ -319,10 +319,19 @@ theorem exit_socket_conserves_partial (dns : Nat → Nat) (evs : List XEv) (s : 
     (s.run dns evs).held.count x = s.held.count x + (evs.flatMap XEv.sentId).count x :=
   XSock.run_held dns evs s h x
 
-/-- three datagrams for one host name while the transports are still being created: all three leave, once each -/
+/-- three datagrams for one host name, two different ports, while the transports are still being created: all three leave,
+    once each, each to the resolved host and ITS OWN port -/
 example : ((XSock.run (fun h => h + 100) {}
-      [.send 1 (.name 7), .send 2 (.name 7), .send 3 (.name 7), .resolved, .transportsReady, .resolved, .resolved]).out
-    = [(1, 107), (2, 107), (3, 107)]) := by decide
+      [.send 1 (.name 7 80), .send 2 (.name 7 6881), .send 3 (.name 7 80), .resolved, .transportsReady, .resolved, .resolved]).out
+    = [(1, (107, 80)), (2, (107, 6881)), (3, (107, 80))]) := by decide
+
+/-- **Every datagram leaves for the address it was handed over with.**  Whatever the schedule (no bound needed): each item the
+    exit socket has emitted or still queues is a pair (datagram, address) with address = the literal destination, or the
+    resolved host together with the port of THAT datagram's destination; pending resolutions will yield such a pair. -/
+theorem exit_socket_addresses (dns : Nat → Nat) (evs : List XEv) :
+    ∀ x ∈ ((XSock.run dns {} evs).out ++ (XSock.run dns {} evs).queue), x ∈ evs.flatMap (XEv.expected dns) := by
+  have h := XSock.run_faithful dns evs [] {} ⟨by simp, by simp⟩
+  simpa using h.1
 
 /-- **Nothing leaves `send_cell` in clear.**  For every node, whatever its tables contain (circuit being built, ready,
     closing, exit socket retired or not, entries half removed): a cell that is not flagged plaintext is either not sent
@@ -395,5 +404,21 @@ theorem tunnel_delivery_spec (overlays : List (Bytes × Bool)) (packet : Bytes) 
 
 example : tunnelDelivery [(List.replicate 22 1, true), (List.replicate 22 2, false), (List.replicate 22 1, false)]
     (List.replicate 22 1 ++ [9, 9]) = [0] := by decide
+
+/-! ### data entering a circuit through the anonymizing endpoint -/
+
+/-- Full statement wanted: nothing handed to `TunnelEndpoint.send` for an anonymized overlay is lost, duplicated or sent to
+    another packet's destination as long as at most 100 packets wait.  Proved (`_partial`): for every history of sends with
+    and without a ready circuit in which the packets already waiting plus all packets of the history number at most 100,
+    every (destination, packet) pair is — exactly as often as it was handed over — either passed to `send_data` with that
+    destination or still queued.  (The model also fixes the ORDER: the current packet first, then the queued ones.) -/
+theorem tunnel_endpoint_send_conserves_partial (evs : List (Bool × (Nat × Nat))) (s : TEp)
+    (h : s.queue.length + evs.length ≤ 100) (y : Nat × Nat) :
+    ((s.run evs).out ++ (s.run evs).queue).count y = (s.out ++ s.queue).count y + (evs.map Prod.snd).count y :=
+  TEp.run_count evs s h y
+
+/-- two packets queued while the circuit is being built, a third sent once it is ready: all three leave, each to its own
+    destination, the current one first -/
+example : ((TEp.run {} [(false, (1, 10)), (false, (2, 20)), (true, (3, 30))]).out = [(3, 30), (1, 10), (2, 20)]) := by decide
 
 end Ipv8.C04
